@@ -219,6 +219,25 @@ def capture_case(M, nfd, nsd, kind_s):
     return goals
 
 
+def relcap_case(M, nfd, nsd, kind_s):
+    """relative capture of a signal given on its own domain = K (capture on that domain + baseline)  (the capture itself is `capture_case`'s subject)"""
+    from dreye.api.estimator import ReceptorEstimator
+    df = _domain(M, "df", nfd, "asc"); ds = _domain(M, "ds", nsd, kind_s, 0.3)
+    F = M.real("F", (2, nfd)); Sg = M.real("S", (2, nsd))
+    Kv = M.real("K", (2,), sample=lambda r, s: r.uniform(0.5, 2.0, size=s)); bv = M.real("base", (2,), sample=lambda r, s: r.uniform(0.0, 0.5, size=s))
+    est = ReceptorEstimator(F, domain=df, K=Kv, baseline=bv)
+    try:
+        rel = np.asarray(est.relative_capture(Sg, domain=ds))
+        out = np.asarray(est.capture(Sg, domain=ds))
+    except ValueError as e:
+        if "Cannot equalize" not in str(e):
+            raise
+        return {"rejected (insufficient overlap: decided in capture_case)": True}
+    return {"shape": rel.shape == (2, 2) and out.shape == (2, 2),
+            "relative_capture(signals, domain=) = K (capture(signals, domain=) + baseline)": rel.shape == (2, 2) and out.shape == (2, 2) and M.eq(
+                rel, np.array([[Kv[j] * (out[i, j] + bv[j]) for j in range(2)] for i in range(2)], dtype=object if M.symbolic else float))}
+
+
 def cases(tier, seed):
     C = []
     big = tier == "thorough"
@@ -241,6 +260,8 @@ def cases(tier, seed):
     add("identical domains n=3", "same_domain_case", n=3)
     add("estimator capture foreign domain 3+3 asc", "capture_case", nfd=3, nsd=3, kind_s="asc")
     add("estimator capture foreign domain 3+2 desc", "capture_case", nfd=3, nsd=2, kind_s="desc")
+    add("estimator relative capture foreign domain 3+3 asc", "relcap_case", nfd=3, nsd=3, kind_s="asc")
+    add("estimator relative capture foreign domain 3+2 desc", "relcap_case", nfd=3, nsd=2, kind_s="desc")
     if big:
         add("two domains 5+4 rank1", "equalize_case", lens=[5, 4], kinds=["asc", "asc"], shapes=[(5,), (4,)], axes=[0, 0], offsets=[0.0, 0.4])
     return C
